@@ -2,7 +2,7 @@
 From Coq Require Import NArith List.
 From FitV Require Import Gen.CrcTable.
 Import ListNotations.
-Open Scope N_scope.
+Local Open Scope N_scope.
 
 (* crcTable[i] *)
 Definition T (i : N) : N := nth (N.to_nat i) crc_table 0.
